@@ -37,6 +37,18 @@ func propC05(r *Run) {
 		plans := make([]*connPlan, nconn)
 		cur := -1
 		cb := func(login, password, service, realm string) (bool, string, error) {
+			if cur == -2 {
+				// a handler released from a yield point: attribute the call to the connection whose
+				// delivered bytes decode to these fields
+				for i, q := range plans {
+					if q.dialled {
+						if f, _, e := RefDecodeRequest(q.stream[:q.sent]); e == nil && f == [4]string{login, password, service, realm} && len(q.calls) == 0 {
+							cur = i
+							break
+						}
+					}
+				}
+			}
 			if cur < 0 {
 				return false, "", errors.New("harness: callback outside a delivery step")
 			}
@@ -48,7 +60,13 @@ func propC05(r *Run) {
 		if err != nil {
 			r.Fail("harness/listen", "%v", err)
 		}
-		go srv.Run() //nolint
+		sched := simrt.NewSched()
+		simrt.S = sched
+		defer func() { simrt.S = nil }()
+		go func() {
+			sched.Register("accept-loop") // goroutines it starts from function literals become scheduling points
+			srv.Run()                     //nolint
+		}()
 		synctest.Wait()
 
 		msgLens := []int{0, 5, 26, 252, 253, 254, 300, 65532, 65533, 70000}
@@ -182,6 +200,10 @@ func propC05(r *Run) {
 					acts = append(acts, act{"reset", i})
 				}
 			}
+			for i, p := range sched.Runnable() {
+				_ = p
+				acts = append(acts, act{"release", i})
+			}
 			if len(acts) == 0 {
 				break
 			}
@@ -191,6 +213,26 @@ func propC05(r *Run) {
 				break
 			}
 			a := acts[r.Choose("action", len(acts))]
+			if a.kind == "release" {
+				rs := sched.Runnable()
+				g := rs[a.conn]
+				r.Logf("step %d: release %s @%s", steps, g.Name, g.Site)
+				cur = -2 // a released handler may call back: attributed below through the connection it reads
+				sched.Release(g, nil)
+				synctest.Wait()
+				cur = -1
+				for _, q := range plans {
+					if q.dialled {
+						q.pair.Deliver(false, 0)
+						q.pair.DeliverFin(false)
+					}
+				}
+				steps++
+				for i := range plans {
+					check(i, false)
+				}
+				continue
+			}
 			p := plans[a.conn]
 			cur = a.conn
 			switch a.kind {
@@ -261,6 +303,22 @@ func propC05(r *Run) {
 			}
 		}
 		synctest.Wait()
+		for guard := 0; guard < 200; guard++ {
+			rs := sched.Runnable()
+			if len(rs) == 0 {
+				break
+			}
+			cur = -2
+			sched.Release(rs[0], nil)
+			synctest.Wait()
+			cur = -1
+		}
+		for _, q := range plans {
+			if q.dialled {
+				q.pair.Deliver(false, 0)
+				q.pair.DeliverFin(false)
+			}
+		}
 		for i := range plans {
 			check(i, true)
 		}
